@@ -530,8 +530,17 @@ func validatorCase0(h *hctx, n, localIdx, pubIdx int, msg []byte, nonce uint64, 
 	}
 	for _, i := range unitsToTry {
 		for _, c := range cs {
-			for _, warm := range []bool{false, true} { // warm: an honest unit was validated before (signature cached)
-				if warm && total < 2 {
+			// warm: number of honest units validated before (0: cold validator; 1: signature cached;
+			// 2: two received; k: the build threshold was reached before the corrupted unit comes)
+			warms := []int{0, 1}
+			if total >= 3 {
+				warms = append(warms, 2)
+			}
+			if k > 2 && k < total {
+				warms = append(warms, k)
+			}
+			for _, warm := range warms {
+				if warm > 0 && total < 2 {
 					continue
 				}
 				u := cloneUnit(&good[i])
@@ -542,13 +551,18 @@ func validatorCase0(h *hctx, n, localIdx, pubIdx int, msg []byte, nonce uint64, 
 				ses, _ = newSession(h, local, ms)
 				accepted := make([]*propeller.Unit, total)
 				nacc := 0
-				if warm {
-					j := (i + 1 + r.Intn(total-1)) % total
+				j0 := r.Intn(total)
+				for d, done := 0, 0; d < total && done < warm; d++ {
+					j := (j0 + d) % total
+					if j == i {
+						continue
+					}
 					sj, _ := legitSender(ses.sched, local.id, pub.id, j)
 					if ses.deliver(cloneUnit(&good[j]), sj, "warm-up") == "ok" {
 						accepted[j] = cloneUnit(&good[j])
 						nacc++
 					}
+					done++
 				}
 				v := ses.deliver(u, sender, c.name)
 				tag := outcomeTag(v)
@@ -576,7 +590,7 @@ func validatorCase0(h *hctx, n, localIdx, pubIdx int, msg []byte, nonce uint64, 
 					}
 					if !harmless {
 						h.violate("validator-accepts-corrupted-unit-"+c.name,
-							fmt.Sprintf("UnitValidator.Validate accepts unit %d with %s (n=%d, after an honest unit: %v)", i, c.name, n, warm), rpc)
+							fmt.Sprintf("UnitValidator.Validate accepts unit %d with %s (n=%d, after %d honest units)", i, c.name, n, warm), rpc)
 					} else {
 						h.res.Hit("validate-corrupt:" + c.name + ":accepted-but-identical-to-honest")
 					}
